@@ -192,6 +192,29 @@ pub fn write_fasta(path: &Path, names: &[String], records: &[Vec<u8>], width: Op
     std::fs::write(path, s).expect("write fasta");
 }
 
+/// leave a blank or a tab behind one sequence line of a FASTA file (line chosen by `salt`), as editors and
+/// copy-paste do: white space is no sequence
+pub fn add_trailing_blank(path: &Path, salt: usize) {
+    let data = std::fs::read(path).expect("read");
+    let lines: Vec<&[u8]> = data.split(|b| *b == b'\n').collect();
+    let seq_lines: Vec<usize> = lines.iter().enumerate().filter(|(_, l)| !l.is_empty() && l[0] != b'>').map(|(i, _)| i).collect();
+    if seq_lines.is_empty() {
+        return;
+    }
+    let at = seq_lines[salt % seq_lines.len()];
+    let mut out = Vec::with_capacity(data.len() + 1);
+    for (i, l) in lines.iter().enumerate() {
+        out.extend_from_slice(l);
+        if i == at {
+            out.push(if salt % 2 == 0 { b' ' } else { b'\t' });
+        }
+        if i + 1 < lines.len() {
+            out.push(b'\n');
+        }
+    }
+    std::fs::write(path, out).expect("write");
+}
+
 /// rewrite a text file with Windows line endings
 pub fn to_crlf(path: &Path) {
     let data = std::fs::read(path).expect("read");
